@@ -488,3 +488,46 @@ Section Loops2.
 
   Definition atimes2_loops (LA : Z -> T) : Z -> T := yedge (yint (xedge (xint LA))).
 End Loops2.
+
+(* ---------------------------------------------------------------------- the call site in colvarbias_abf::update()
+   bin = the bin of this step; force_bin = the bin the delivered total force belongs to: bin itself when the engine
+   gives same-step forces (f_cv_total_force_current_step), the previous step's bin otherwise (force_bin = bin at the end
+   of update()).  A sample is taken when (step_relative > 0 || same-step) and samples->index_ok(force_bin):
+       gradients->acc_force(force_bin, system_force);  pmf->update_div_neighbors(force_bin);
+   [site_ok = false is NOT the code: it refreshes the neighbourhood of bin instead, used only as a counter-example] *)
+Definition in_grid2b {T} (sh : shape2 (T:=T)) (b : ix2) : bool :=
+  (0 <=? fst b) && (fst b <? nxg sh) && (0 <=? snd b) && (snd b <? nyg sh).
+Definition in_grid3b {T} (sh : shape3 (T:=T)) (b : ix3) : bool :=
+  (0 <=? i3x b) && (i3x b <? mxg sh) && (0 <=? i3y b) && (i3y b <? myg sh) && (0 <=? i3z b) && (i3z b <? mzg sh).
+
+Section AbfSite.
+  Context {T : Type} (O : NumOps T) (sc : smooth_cfg) (sm : bool).
+
+  Definition abf_site2 (site_ok : bool) (sh : shape2 (T:=T)) (same : bool)
+      (s : state2 (T:=T) * ix2 * bool) (e : ix2 * (T * T)) : state2 (T:=T) * ix2 * bool :=
+    let st := fst (fst s) in let fb := snd (fst s) in let first := snd s in
+    let bin := fst e in
+    let fbin := if same then bin else fb in
+    let st' := if (negb first || same) && in_grid2b sh fbin then
+                 let st1 := acc_force2 O st fbin (snd e) in
+                 mkState2 (gsum2 st1) (gcnt2 st1)
+                          (update_div_neighbors2 O sc sm sh st1 (dv2 st1) (if site_ok then fbin else bin))
+               else st in
+    (st', bin, false).
+  Definition abf_run2 (site_ok : bool) (sh : shape2 (T:=T)) (same : bool) (st0 : state2 (T:=T)) (l : list (ix2 * (T * T))) :=
+    fst (fst (fold_left (abf_site2 site_ok sh same) l (st0, (0, 0), true))).
+
+  Definition abf_site3 (site_ok : bool) (sh : shape3 (T:=T)) (same : bool)
+      (s : state3 (T:=T) * ix3 * bool) (e : ix3 * (T * T * T)) : state3 (T:=T) * ix3 * bool :=
+    let st := fst (fst s) in let fb := snd (fst s) in let first := snd s in
+    let bin := fst e in
+    let fbin := if same then bin else fb in
+    let st' := if (negb first || same) && in_grid3b sh fbin then
+                 let st1 := acc_force3 O st fbin (snd e) in
+                 mkState3 (gsum3 st1) (gcnt3 st1)
+                          (update_div_neighbors3 O sc sm sh st1 (dv3 st1) (if site_ok then fbin else bin))
+               else st in
+    (st', bin, false).
+  Definition abf_run3 (site_ok : bool) (sh : shape3 (T:=T)) (same : bool) (st0 : state3 (T:=T)) (l : list (ix3 * (T * T * T))) :=
+    fst (fst (fold_left (abf_site3 site_ok sh same) l (st0, (0, 0, 0), true))).
+End AbfSite.
